@@ -6,7 +6,7 @@ CONSTANTS
   QTypes <- QTypesC09
   Vals = {1, 2}
   ValsOf <- C09ValsOf
-  OpFamilies = {"W", "U"}
+  OpFamilies = {"W", "U", "B"}
   Writers = {"w1"}
   Readers = {"r1", "r2"}
   MaxVer = 4
